@@ -12,7 +12,7 @@ props = sorted(claims)
 
 def run_props(repo, ps):
     ev = tempfile.mkdtemp(prefix="sweepev.")
-    out = subprocess.run([os.path.join(ROOT, "bin", "gqlvet"), "findings"] + ps, env=dict(ENV, GQLVET_REPO=repo, GQLVET_EVIDENCE=ev),
+    out = subprocess.run([os.environ.get("GQLVET_BIN", os.path.join(ROOT, "bin", "gqlvet")), "findings"] + ps, env=dict(ENV, GQLVET_REPO=repo, GQLVET_EVIDENCE=ev),
                          capture_output=True, text=True).stdout
     subprocess.run(["rm", "-rf", ev])
     return out
@@ -52,9 +52,19 @@ def one(seed):
     rev = "HEAD"
     subprocess.run(["git", "-C", "/repo", "worktree", "add", "--detach", wt, "HEAD"], capture_output=True)
     if subprocess.run(["git", "-C", wt, "apply", "--check", patch], capture_output=True).returncode != 0:
-        subprocess.run(["git", "-C", "/repo", "worktree", "remove", "--force", wt], capture_output=True)
-        subprocess.run(["git", "-C", "/repo", "worktree", "add", "--detach", wt, BASE], capture_output=True)
-        rev = BASE
+        # the commit the change was written against (meta.json), else the pinned snapshot
+        cands = []
+        try:
+            cands.append(json.load(open(os.path.join(ROOT, "seeded", seed, "meta.json")))["base"].split()[0])
+        except Exception:
+            pass
+        cands.append(BASE)
+        for cand in cands:
+            subprocess.run(["git", "-C", "/repo", "worktree", "remove", "--force", wt], capture_output=True)
+            subprocess.run(["git", "-C", "/repo", "worktree", "add", "--detach", wt, cand], capture_output=True)
+            rev = cand
+            if subprocess.run(["git", "-C", wt, "apply", "--check", patch], capture_output=True).returncode == 0:
+                break
     r = subprocess.run(["git", "-C", wt, "apply", patch], capture_output=True)
     if r.returncode != 0:
         subprocess.run(["git", "-C", "/repo", "worktree", "remove", "--force", wt], capture_output=True)
@@ -65,7 +75,7 @@ def one(seed):
 
 def main():
     seeds = sys.argv[1:] or sorted(d for d in os.listdir(os.path.join(ROOT, "seeded")) if os.path.isfile(os.path.join(ROOT, "seeded", d, "patch.diff")))
-    reference("HEAD"); reference(BASE)
+    reference("HEAD")
     mpath = os.path.join(ROOT, "seeded", "MATRIX.json")
     matrix = json.load(open(mpath)) if sys.argv[1:] and os.path.exists(mpath) else {}
     with cf.ThreadPoolExecutor(max_workers=12) as ex:
